@@ -32,7 +32,7 @@ def cases(tier, seed):
         if i % 3 == 0:
             d = SPECIAL[(i // 3) % len(SPECIAL)]
         else:
-            d = gen.random_mesh(rng, 80 if tier == "quick" else 600)
+            d = gen.random_mesh(rng, 80 if tier == "quick" else 600, families=gen.DEFAULT_FAMILIES + ["sample"])
         yield {"mesh": d, "dseed": int(rng.integers(0, 10**6)), "lead": [int(x) for x in rng.integers(1, 4, size=int(rng.integers(0, 4)))],
                "dtype": str(rng.choice(["float64", "float64", "float32", "int64", "bool"])), "rule": int(rng.integers(0, len(RULES))) if rng.random() < 0.6 else -1,
                "history": str(rng.choice(["fresh", "face_areas_first", "other_rule_first"])), "layout": str(rng.choice(["C", "C", "F", "T", "strided", "T_via_transpose"]))}
